@@ -365,15 +365,17 @@ Section WmdProofs.
   Proof. intros _ -> ->. destruct M. reflexivity. Qed.
 
   (* t: what the line splitter leaves at the end of each line ("\n" for readlines, "" for splitlines) *)
-  Theorem parse_file_lines t i : forallb is_space t = true -> wf_wmd i ->
-    wmd_parse W read_w false false (meta0 (lit "wmd")) (map (fun l => l ++ t) (file_lines i)) = Ok (reparsed i).
+  Lemma header_file_lines t i : forallb is_space t = true -> wf_wmd i ->
+    wmd_header false (meta0 (lit "wmd")) 0 (map (fun l => l ++ t) (file_lines i)) =
+    Ok (set_alt_names (set_num_alternatives (copy_fields (w_meta i) (meta0 (lit "wmd"))) (num_alternatives (w_meta i)))
+                      (alt_names (w_meta i)),
+        w_num_edges i, map (fun l => l ++ t) (elines (sorted_weights i))).
   Proof.
     intros Ht (Hdt & Hf & Hn & Hg & Hw & Hne & Hnz).
     assert (Hk : keys (sorted_weights i) = edge_keys (w_nodes i)) by now apply sorted_weights_keys.
     assert (Hes : sorted_weights i <> []).
     { intros C. rewrite C in Hk. cbn in Hk. apply Hnz. apply length_zero_iff_nil.
       rewrite (all_edges_length _ Hg), <- Hk. reflexivity. }
-    unfold wmd_parse. cbn [data_type meta0]. rewrite teqb_refl.
     unfold file_lines, header_lines. rewrite !map_app. cbn [map]. rewrite <- !app_assoc. cbn [app].
     set (M := w_meta i) in *. set (es := sorted_weights i) in *.
     assert (Hrest : map (fun l => l ++ t) (elines es) <> []).
@@ -399,17 +401,34 @@ Section WmdProofs.
       [|apply alt_name_lines_hdr_ok; apply Hn|exact Hrest|now apply alt_names_roundtrip_fresh].
     (* the first edge line stops the header loop *)
     destruct es as [|e r] eqn:Ees; [contradiction|]. cbn [elines map].
-    rewrite wmd_header_stop.
-    2:{ rewrite strip_nl_r by exact Ht. rewrite <- (strip_nl_r _ nl) by reflexivity. apply eline_not_hash. }
-    cbn [rbind fst snd]. rewrite (reparsed_meta_eq M (alt_names M) (num_alternatives M) Hn eq_refl eq_refl).
-    (* the edge lines *)
-    change ((eline e ++ t) :: map (fun l => l ++ t) (map eline r)) with (map (fun l => l ++ t) (elines (e :: r))).
-    rewrite <- Ees in *. clear Ees.
+    rewrite wmd_header_stop; [reflexivity|].
+    rewrite strip_nl_r by exact Ht. rewrite <- (strip_nl_r _ nl) by reflexivity. apply eline_not_hash.
+  Qed.
+
+  Theorem parse_file_lines t i : forallb is_space t = true -> wf_wmd i ->
+    wmd_parse W read_w false false (meta0 (lit "wmd")) (map (fun l => l ++ t) (file_lines i)) = Ok (reparsed i).
+  Proof.
+    intros Ht H. pose proof H as (Hdt & Hf & Hn & Hg & Hw & Hne & Hnz).
+    assert (Hk : keys (sorted_weights i) = edge_keys (w_nodes i)) by now apply sorted_weights_keys.
+    unfold wmd_parse. cbn [data_type meta0]. rewrite teqb_refl.
+    rewrite (header_file_lines t i Ht H). cbn [rbind fst snd].
+    rewrite (reparsed_meta_eq (w_meta i) (alt_names (w_meta i)) (num_alternatives (w_meta i)) Hn eq_refl eq_refl).
     rewrite (parse_edges_elines_t t Ht). rewrite fold_add_edge_split. cbn [rbind fst snd].
     rewrite Hk. fold (rebuilt (w_nodes i)).
     rewrite fold_assoc_set_fresh.
-    2:{ cbn [keys map app]. fold (keys es). rewrite Hk. destruct Hg as [D [Dn _]]. now apply edge_keys_NoDup. }
+    2:{ cbn [keys map app]. fold (keys (sorted_weights i)). rewrite Hk. destruct Hg as [D [Dn _]]. now apply edge_keys_NoDup. }
     reflexivity.
+  Qed.
+
+  (* header_only=True: the header fields and the NUMBER EDGES value of the file, an empty graph *)
+  Theorem parse_file_lines_header_only t i : forallb is_space t = true -> wf_wmd i ->
+    wmd_parse W read_w false true (meta0 (lit "wmd")) (map (fun l => l ++ t) (file_lines i)) =
+    Ok (mkW (reparsed_meta (w_meta i)) (w_num_edges i) [] []).
+  Proof.
+    intros Ht H. pose proof H as (Hdt & Hf & Hn & Hg & Hw & Hne & Hnz).
+    unfold wmd_parse. cbn [data_type meta0]. rewrite teqb_refl.
+    rewrite (header_file_lines t i Ht H). cbn [rbind fst snd].
+    now rewrite (reparsed_meta_eq (w_meta i) (alt_names (w_meta i)) (num_alternatives (w_meta i)) Hn eq_refl eq_refl).
   Qed.
 
   (* ============================================================================================== *)
@@ -531,6 +550,15 @@ Section WmdProofs.
     intros H. rewrite wmd_write_lines. rewrite splitlines_unlines by now apply file_lines_no_break.
     rewrite <- (parse_file_lines [] i eq_refl H). f_equal.
     rewrite <- (map_id (file_lines i)) at 1. apply map_ext. intros l. now rewrite app_nil_r.
+  Qed.
+
+  Theorem header_only_readlines i : wf_wmd i ->
+    wmd_parse W read_w false true (meta0 (lit "wmd")) (readlines (wmd_write W show_w i)) =
+    Ok (mkW (reparsed_meta (w_meta i)) (w_num_edges i) [] []).
+  Proof.
+    intros H. rewrite wmd_write_lines. rewrite readlines_unlines.
+    - now apply (parse_file_lines_header_only nl).
+    - apply forallb_no_nlcr. now apply file_lines_no_break.
   Qed.
 
   Theorem roundtrip i : wf_wmd i ->
